@@ -57,6 +57,49 @@ CLAIMED['C05'] = dict(
          'a sorted list is modelled as "index after the last key <= x"; integer times and delays.',
     technique='Coq proof (frame lemmas, sortedness invariant, permutation) + step-local differential correspondence via vm_compute')
 
+CLAIMED['C10'] = dict(
+    category='proof',
+    text='Meta-event emission is modelled inside the interpreter model (raise_meta at every emission point) and the '
+         'listeners of listener.py concretely (recorders, bound callables/interpreters, property statecharts executing a '
+         'nested interpreter at the monitored step time). Coq theorems: the listener call sequence of a returning '
+         'execute_once is exactly spec_meta(returned macro step) (complete, once, ordered, with attributes), a prefix when '
+         'it raises; delivery stops at the first raising listener; a property listener raises exactly when its '
+         'interpreter is final; it runs at the monitored step time; listeners that do not raise do not change the run '
+         '(simulation with the listener-free run). Tied to the code by one-operation correspondence cases with recorders '
+         'and property statecharts that turn final at the k-th meta-event for every k; the spec_meta checker (proved '
+         'equal to the theorem\'s specification) is evaluated on every implementation log.',
+    design_ref='DESIGN.md section 6 (C10)',
+    note='Trusted: Coq kernel+VM; hand-written model validated differentially on generated cases only; hypothesis names_ok '
+         '(a state registered under a name has that name; decidable, proved necessary by a refutation); property '
+         'interpreters have no listeners of their own; user notify names differ from built-in meta-event names.',
+    technique='Coq proof (trace lemmas, simulation) + step-local differential correspondence via vm_compute')
+CLAIMED['C13'] = dict(
+    category='proof',
+    text='Coq theorems over the interpreter model: in one execute_once, whatever its outcome, the interpreter time is the '
+         'value sampled at the call, every executed/evaluated fragment sees it, step started and the macro step carry it, '
+         'every listener call gets it, and no other operation changes it; entry/idle times after a step are exactly '
+         '"latest macro step that entered the state" / "... or processed a transition from it", and guards/contracts see '
+         'those as the bases of after()/idle(). Tied to the code by correspondence cases in which the clock also moves '
+         'DURING a step (a context callable) and the bases of after/idle are observed by probing the very closures the '
+         'evaluator exposes.',
+    design_ref='DESIGN.md section 6 (C13)',
+    note='Trusted: Coq kernel+VM; hand-written model validated differentially; integer clock values (IEEE rounding of '
+         'float times not modelled: time - d >= entry vs time - entry >= d can differ by an ulp).',
+    technique='Coq proof (frame/trace invariants) + step-local differential correspondence via vm_compute')
+CLAIMED['C15'] = dict(
+    category='proof',
+    text='Coq theorems over the interpreter + listener model: a bound callable receives, as external events with the same '
+         'name and parameters, exactly the internal events listed in the returned macro step, in order; a bound '
+         'interpreter gets them inserted in its external queue at its own time + delay; targets are served in binding '
+         'order; only event sent is forwarded (no notify, no consumed events); nothing reaches a detached listener; the '
+         'sender keeps its own internal copy; a prefix is delivered when the call raises. Tied to the code by '
+         'correspondence cases with random binding topologies and detach points; the delivery checker (proved equal to the '
+         'theorem\'s specification) runs on every implementation log.',
+    design_ref='DESIGN.md section 6 (C15)',
+    note='Trusted: Coq kernel+VM; hand-written model validated differentially; bound interpreters are only queued into '
+         'during the sender\'s step (their own execution is a separate operation).',
+    technique='Coq proof (listener fold lemmas) + step-local differential correspondence via vm_compute')
+
 NOT_YET = {}
 
 ALL = ['C%02d' % i for i in range(1, 21)]
